@@ -317,6 +317,13 @@ func derSeq(r, s []byte, longForm bool) []byte {
 // sigVariants returns key-less re-encodings of an ECDSA/secp256k1 DER signature.
 func sigVariants(alg string, sig []byte) map[string][]byte {
 	out := map[string][]byte{}
+	// whatever the algorithm: the same signature value with zero octets in front (a big-integer
+	// reading would not notice)
+	out["zero_octets_in_front"] = append([]byte{0x00}, sig...)
+	out["two_zero_octets_in_front"] = append([]byte{0x00, 0x00}, sig...)
+	if len(sig) > 1 && sig[0] == 0 {
+		out["leading_zero_octet_stripped"] = append([]byte{}, sig[1:]...)
+	}
 	n := curveOrder(alg)
 	if n == nil {
 		return out
